@@ -55,7 +55,9 @@ def make(ctx, cls, k):
         return nap.Tsd(t, (np.arange(n) * 3 + 1).astype(dt), time_support=ep)
     if cls == "TsdFrame":
         nc = rng.randint(1, 4)
-        cols = [["a", "b", "c", "d"][:nc], rng.sample(range(0, 50), nc), None][k % 3]
+        cols = [["a", "b", "c", "d"][:nc], rng.sample(range(0, 50), nc), None,
+                # string labels that LOOK like numbers / booleans / missing values must come back as the same strings
+                ["3", "07", "12", "-1"][:nc], ["1.5", "nan", "True", "x y"][:nc]][k % 5]
         md = {"m_num": np.arange(nc) * 1.5, "m_str": np.array(["s%d" % i for i in range(nc)], dtype=object)} if k % 2 else None
         return nap.TsdFrame(t, (np.arange(n * nc).reshape(n, nc) + 1).astype(dt), columns=cols, time_support=ep, metadata=md)
     if cls == "TsdTensor":
